@@ -150,6 +150,17 @@ Proof.
 Qed.
 
 (* ------------------------------------------------------------ the main theorem *)
+Lemma resize_ref_is_resize st i n j idx v :
+  elem_ref st j idx = Some v -> step true true st (ResizeRef i n j idx) = step true true st (Resize i n v).
+Proof. intro H. cbn [step]. rewrite H. reflexivity. Qed.
+
+Lemma wf_step_ResizeRef st i n j idx st' : WF st -> step true true st (ResizeRef i n j idx) = Some st' -> WF st'.
+Proof.
+  intros W H. destruct (elem_ref st j idx) as [v|] eqn:E.
+  - rewrite (resize_ref_is_resize _ _ _ _ _ _ E) in H. eapply wf_step_Resize; eauto.
+  - cbn [step] in H. rewrite E in H. discriminate.
+Qed.
+
 Theorem wf_step st o st' : WF st -> step true true st o = Some st' -> WF st'.
 Proof.
   intros W H. destruct o.
@@ -173,6 +184,7 @@ Proof.
   - eapply wf_step_Write; eauto.
   - eapply wf_step_FromWrap; eauto.
   - eapply wf_step_ResetWrap; eauto.
+  - eapply wf_step_ResizeRef; eauto.
 Qed.
 
 Lemma wf_step' st o : WF st -> WF (step' true true st o).
